@@ -129,6 +129,10 @@ func evalExecBlock(vm *r.VM, execBlock *syntax.ExecBlock, params []r.Element) (r
 		return handleExceptionSignal(vm, blockModule, blockDepth, execBlock.CatchBlock, stmtBlockErr)
 	}
 
+	// a block without any value-yielding statement (empty, or definitions only) yields 空
+	if rtnValue == nil {
+		rtnValue = value.NewNull()
+	}
 	return rtnValue, stmtBlockErr
 }
 
